@@ -42,6 +42,7 @@ texts = st.one_of(
     G.plain_text,
     st.sampled_from(G.WRAPPED), st.sampled_from(["lyric ", "section ", ""]).flatmap(
         lambda pre: st.sampled_from(G.WRAPPED).map(lambda w: pre + w)),
+    st.sampled_from(G.KNOWN_GLOBAL_EVENTS),
     # names with a meaning to the games (candidates for special treatment)
     st.sampled_from(["end", "end", "music_start", "music_end", "phrase_start", "phrase_end", "coda", "idle", "play",
                      "crowd_lighters_fast", "section end", "lyric end", "End", "the end", "solo", "soloend",
